@@ -605,6 +605,10 @@ func judgeC12(c C12Case, recs []*c12Rec) *Failure {
 				continue // the entry may have no handler: what reading it does is not this property's business
 			}
 			if r.raw != "" && !r.ok && r.code == 0 {
+				if strings.Contains(r.raw, "panic") {
+					// a fact, however the schedule that led to it came about
+					return Failf("C12/request-panics/"+reg, "%s: %s %q [%d-%d]: %.300s\nhistory: %s", c.Mode, r.op.Op, k, r.start, r.end, r.raw, hist())
+				}
 				return TimingFailf("C12/call-no-answer/"+reg, "%s: %s %q: %.200s", c.Mode, r.op.Op, k, r.raw)
 			}
 			if definitelyPresent(reg, k, r.start, r.end) {
